@@ -941,6 +941,75 @@ fn main() {
         println!("{}", f.join(","));
         return;
     }
+    if args[1] == "--threads" {
+        // C18 stress: T threads, each performing new / add_module / remove_module on its own
+        // unwinders; every identity handed out is printed as "<thread> <generation>".
+        let nthreads: usize = args[2].parse().unwrap();
+        let ops: usize = args[3].parse().unwrap();
+        let seed: u64 = args.get(4).and_then(|s| s.parse().ok()).unwrap_or(1);
+        let barrier = Arc::new(std::sync::Barrier::new(nthreads));
+        let mut handles = Vec::new();
+        for t in 0..nthreads {
+            let b = barrier.clone();
+            handles.push(std::thread::spawn(move || {
+                let mut out: Vec<u16> = Vec::with_capacity(ops);
+                let mut x = seed.wrapping_mul(0x9E3779B97F4A7C15).wrapping_add(t as u64 + 1) | 1;
+                let mut next = move || {
+                    x ^= x >> 12;
+                    x ^= x << 25;
+                    x ^= x >> 27;
+                    x.wrapping_mul(0x2545F4914F6CDD1D)
+                };
+                b.wait();
+                let mut u: UnwinderX86_64<Data, MayAllocateDuringUnwind> = UnwinderX86_64::new();
+                out.push(u.verif_modules_generation());
+                let mut starts: Vec<u64> = Vec::new();
+                let mut done = 1;
+                while done < ops {
+                    match next() % 4 {
+                        0 => {
+                            u = UnwinderX86_64::new();
+                            starts.clear();
+                            out.push(u.verif_modules_generation());
+                            done += 1;
+                        }
+                        1 | 2 => {
+                            let st = 0x1000 * (starts.len() as u64 + 1);
+                            let si = SecInfo {
+                                base_svma: 0,
+                                data: HashMap::new(),
+                                ranges: HashMap::new(),
+                                seg_data: HashMap::new(),
+                                seg_ranges: HashMap::new(),
+                            };
+                            u.add_module(Module::new("m".to_string(), st..st + 0x100, st, si));
+                            starts.push(st);
+                            out.push(u.verif_modules_generation());
+                            done += 1;
+                        }
+                        _ => {
+                            if let Some(st) = starts.pop() {
+                                u.remove_module(st);
+                                out.push(u.verif_modules_generation());
+                                done += 1;
+                            } else {
+                                let before = u.verif_modules_generation();
+                                u.remove_module(0xdead);
+                                assert_eq!(before, u.verif_modules_generation());
+                            }
+                        }
+                    }
+                }
+                out
+            }));
+        }
+        for (t, h) in handles.into_iter().enumerate() {
+            for g in h.join().unwrap() {
+                println!("{} {}", t, g);
+            }
+        }
+        return;
+    }
     let hang_ms: u64 = args.get(2).and_then(|s| s.parse().ok()).unwrap_or(5000);
     install_panic_hook();
     let f = std::fs::File::open(&args[1]).expect("open script");
